@@ -33,7 +33,8 @@ RULE = (
     "cells) before/after fit and every call. kind=twin: equal parameters x random_state in "
     "{0,1,2} x n_jobs in {None,1,2,4} (threading backend) and pickle round trip give equal "
     "results. kind=order: at every runnable Parallel call site every task order (k<=4 all k!, "
-    "else <=2 inversions + reverse; one deviating call at a time, thorough two) under the owned "
+    "else <=2 inversions + reverse; one deviating call at a time among the first 6 multi-task "
+    "calls of the site, thorough: among all (<=128) and two deviating calls) under the owned "
     "joblib backend equals the sequential result. kind=interleave: two real threads running two "
     "captured tasks under a line-event baton, every schedule with <=1 (thorough <=2, capped) "
     "preemption; each task's result must equal its sequential result. states = executed "
@@ -80,8 +81,10 @@ S_PROGRAMS = [
     ["deseason", 2, "multiplicative"], ["cdeseason", 3, "additive", True], ["std"], ["minmax"],
     ["opt", ["log"], False], ["cos"], ["acf", 4], ["pacf", 3], ["hampel-df", 5], ["imputer-df", "drift"],
     ["imputer-df", "mean"], ["imputer-df", "random"], ["imputer-df", "linear"], ["imputer-df", "ffill"],
+    ["boxcox", "pearsonr"],
 ]
 P_PROGRAMS = ["pad", "trunc", "interp", "tab", "concat", "iseg", "rseg", "slide", "paa", "plateau",
+              "plateau-nan",
               "dslope", "rife", "slope", "dwt", "hog", "pca", "s2s-cos", "s2p-mean", "sax", "sfa"]
 F_PROGRAMS = fmenu.BASIC + [["es"], ["theta", 3]] + fmenu.COMPOSITES[:9] + [
     ["naive-nan", "drift", 4], ["naive-nan", "mean", 3]]  # apply calls that FAIL half way
@@ -135,6 +138,7 @@ def _build_p(name, rs=0):
         "slide": lambda: segment.SlidingWindowSegmenter(window_length=5),
         "paa": lambda: PAA(num_intervals=5),
         "plateau": lambda: PlateauFinder(),
+        "plateau-nan": lambda: PlateauFinder(),  # default value NaN, on panels with NaN runs
         "dslope": lambda: DerivativeSlopeTransformer(),
         "rife": lambda: RandomIntervalFeatureExtractor(n_intervals=3, random_state=rs),
         "slope": lambda: slope.SlopeTransformer(num_intervals=4),
@@ -252,12 +256,12 @@ def gen_cases(tier, seed):
         yield dict(kind="refit", fam="all", prog=name)
     for site in SITES:
         # one case per deviating Parallel call (quick: the first 6 multi-task calls of the site)
-        for cno in range(6 if tier == "quick" else 48):
-            yield dict(kind="order", site=site, dev=1, call=cno)
+        for cno in range(6 if tier == "quick" else 128):
+            yield dict(kind="order", site=site, dev=1, call=cno, lim=6 if tier == "quick" else 128)
         if tier != "quick":
             # two deviating calls, sharded by the first of them
-            for cno in range(48):
-                yield dict(kind="order", site=site, dev=2, call=None, pair_first=cno)
+            for cno in range(128):
+                yield dict(kind="order", site=site, dev=2, call=None, pair_first=cno, lim=128)
     pairs = [(0, 1)] if tier == "quick" else [(0, 1), (0, 2), (1, 2)]
     small = ["tsf_fit", "tsf_proba", "tsfr_predict", "ens_fit"]      # 60-75 points per task
     big = ["stsf_fit", "rise_fit", "boss_predict"]                   # 1 000-6 000 points per task
@@ -342,6 +346,23 @@ def _apply_case(res, tag, est_fitted, menu, args_builders, other_fit=None):
     for i, (name, fn) in enumerate(menu):
         tw = copy.deepcopy(est_fitted)
         refs[i] = call(fn, tw, args_builders())
+    # a pickled and restored copy answers every call like the original
+    pk = call(lambda: pickle.loads(pickle.dumps(est_fitted)))
+    if not pk.ok:
+        res.outcome("unpicklable:" + tag.split(":")[0])
+    else:
+        for i, (name, fn) in enumerate(menu):
+            if name.startswith("other-instance"):
+                continue
+            o = call(fn, copy.deepcopy(pk.value), args_builders())
+            res.transitions += 1
+            r = refs[i]
+            if o.ok != r.ok or (o.ok and not _eq(o.value, r.value)):
+                res.violate("%s:pickle:%s" % (tag, name), "a pickled and restored copy of the "
+                            "fitted estimator answers differently",
+                            expected=r.value if r.ok else r.brief(),
+                            observed=o.value if o.ok else o.brief())
+                return
     for seq in _seqs(menu):
         est = copy.deepcopy(est_fitted)
         res.states += 1
@@ -437,6 +458,10 @@ def _apply_p(case, res):
     ncol = 2 if name in ("concat", "pad", "trunc", "interp", "tab", "dslope", "plateau",
                          "s2s-cos", "s2p-mean") else 1
     Pa, Pb, Pc = _panel(10, ncol), _panel(6, ncol, shift=0.7), _panel(6, ncol, shift=1.9)
+    if name == "plateau-nan":
+        for P_ in (Pa, Pb, Pc):
+            P_[:, :, 3:6] = np.nan
+            P_[::2, :, 10:12] = np.nan
     mk = (lambda P: _nested(P)) if cont == "nested" else (lambda P: P.copy())
     est = _build_p(name)
     yv = np.array([0, 1] * 5)
@@ -564,7 +589,15 @@ def _refit_parts_all(name):
             out.append(list(e.classes_))
         return tuple(out)
 
-    return (lambda: cls(**base), lambda e: fit_on(e, 1), lambda e: fit_on(e, 2), app)
+    def build():
+        e = cls(**base)
+        # reproducibility is promised for a fixed random_state: fix it where the fixture leaves
+        # it open (otherwise random tie-breaking makes refit and fresh differ by chance)
+        if "random_state" in e.get_params(deep=False) and e.get_params()["random_state"] is None:
+            e.set_params(random_state=0)
+        return e
+
+    return (build, lambda e: fit_on(e, 1), lambda e: fit_on(e, 2), app)
 
 
 def _refit_parts(fam, prog):
@@ -840,9 +873,11 @@ def _order(case, res):
     res.evals = n
     if sizes and max(sizes) > 1:
         res.nt((site, tuple(sizes)))
-    if sizes and sum(1 for k_ in sizes if k_ > 1) > 48:
+    lim = case.get("lim", 128)
+    if lim > 6 and sizes and sum(1 for k_ in sizes if k_ > 1) > lim:
+        # (the quick tier's bound - the first 6 multi-task calls of a site - is part of RULE)
         res.notes.append("CAPPED: order %s: %d multi-task calls, deviations explored in the first "
-                         "48" % (site, sum(1 for k_ in sizes if k_ > 1)))
+                         "%d" % (site, sum(1 for k_ in sizes if k_ > 1), lim))
     res.outcome("order:calls=%s" % (sizes,))
 
 
